@@ -108,6 +108,22 @@ TDelete ==
 
 Obs == UNCHANGED <<pts, where, srvOf, down>> /\ Env
 
+\* a collection of a user whose server is down, created through every live node: a record has one home
+\* (the routing function of C13), so the request fails -- or what a node acknowledged can be read back
+\* through every node (E.reads: one entry per acknowledged creation and live node)
+\* update requests that the shard refuses as a whole (merged point beyond the plan's point size) with an error
+\* of the remote handler, while other clients' updates are in flight on the same connections: every one is
+\* refused, nothing changes (the reads that follow see the old documents), and the others are not concerned
+TNoise == IsEvent("CNoise") /\ Obs /\ E.refused = E.asked
+
+\* the first calls on a fresh connection: a search that reads many points and an update the shards refuse as a
+\* whole, at the same moment (RpcMux.tla: a call is completed only by the server's answer to that call).  Every
+\* server is up: the search answers, with every stored point exactly once; the refused request is refused.
+TMux == IsEvent("CMux") /\ UNCHANGED <<pts, where, srvOf, down>> /\ Env
+        /\ E.err = 0 /\ E.found = E.n /\ E.extra = 0 /\ E.dups = 0 /\ E.refused = 1
+
+TCreateDown == IsEvent("CCreateDown") /\ Obs /\ \A k \in DOMAIN E.reads : E.reads[k] = 1
+
 \* a search may fail only if some shard could not answer
 TSearchErr == IsEvent("CSearchErr") /\ Obs /\ ~AllAnswered
 
@@ -153,7 +169,7 @@ TSort ==
   /\ AsSet(E.ids) \subseteq EvalQ(S, U, pts, E.q)
   /\ \A k \in DOMAIN E.ids : k > 1 => KeyLE(E.ids[k - 1], E.ids[k], E.desc)
 
-TraceNext == TReset \/ TInsert \/ TPlace \/ TDown \/ TUpdate \/ TDelete \/ TSearchErr \/ TGet \/ TFilter \/ TFlat \/ TSort
+TraceNext == TReset \/ TInsert \/ TPlace \/ TDown \/ TCreateDown \/ TNoise \/ TMux \/ TUpdate \/ TDelete \/ TSearchErr \/ TGet \/ TFilter \/ TFlat \/ TSort
 TraceSpec == TraceInit /\ [][TraceNext]_vars
 
 WF == DOMAIN where \subseteq DOMAIN pts \cup DOMAIN where
